@@ -39,6 +39,8 @@ RULE = (
     "re-use variant (fit, personalize; Hypothesis cases + exhaustive kind x sampler x annealing grid): ONE algorithm object from "
     "algorithm_factory(AlgorithmSettings(...)) run twice (fit: identical fresh models; personalize: same fitted model and data), both runs "
     "bit-identical to the model.fit / model.personalize reference. "
+    "n_jobs engine: seeded scipy_minimize with n_jobs in {2,3} (joblib workers), twice in a row after prior activity, bit-identical to the "
+    "same seeded call with n_jobs=1 (non-trivial when both repetitions completed and agree). "
     "Non-trivial = (re-use variant: both runs completed and identical) OR prior activity non-empty AND (fit: the logging variant really printed statistics or wrote a CSV/PDF, checked "
     "in captured stdout / on disk; personalize, simulate: always, they have no output manager); distinct by (call, variant)."
 )
@@ -70,7 +72,7 @@ REQUIRED_CLASSES = {
     "printed": 25, "wrote-csv": 25, "wrote-convergence-pdf": 10, "wrote-patient-pdf": 10, "default-path": 5, "no-path": 10,
     "prior:consume": 30, "prior:fit": 10, "prior:personalize": 5, "prior:same": 10, "prior:unseeded": 8,
     "refused-invalid": 40, "fresh-process-reference": 4, "nontrivial": 60,
-    "reused-algorithm-object": 30, "reused-algorithm-object:annealing": 10,
+    "reused-algorithm-object": 30, "reused-algorithm-object:annealing": 10, "perso:n_jobs>1": 3,
 }
 
 LOG_KEYS = ("print_periodicity", "save_periodicity", "plot_periodicity", "plot_patient_periodicity", "plot_sourcewise",
@@ -308,7 +310,7 @@ def build_visit_parameters(d):
     return dict(d)
 
 
-def call_target(ctx: Ctx, lg=None, tag="v"):
+def call_target(ctx: Ctx, lg=None, tag="v", extra_kw=None):
     """Run the call under test. Returns dict(result=canonical|None, exc=exception|None, stdout, disk, default_path)."""
     from leaspy.algo import AlgorithmSettings
 
@@ -317,6 +319,7 @@ def call_target(ctx: Ctx, lg=None, tag="v"):
     kw_log, roots, default = resolve_logging(lg, tag)
     root, top = roots if roots else (None, None)
     akw = dict(case.get("algo_kw") or {})
+    akw.update(extra_kw or {})
     pb = bool(lg.get("progress_bar")) if lg else False
     buf = io.StringIO()
     res = exc = None
@@ -1102,6 +1105,93 @@ def shard_known(shard: str = ""):
 
 
 # ------------------------------------------------------------------------------------------------
+# ------------------------------------------------------------------------------------------------
+# n_jobs engine: scipy_minimize with joblib workers (the seed must govern what happens inside the workers too)
+# ------------------------------------------------------------------------------------------------
+@st.composite
+def njobs_case(draw, tier="quick"):
+    cfg = draw(gen.model_cfg(kinds=("logistic", "linear"), dim=(1, 3)))
+    feats = [f"f{j}" for j in range(cfg["kwargs"]["dimension"])]
+    cohort = draw(gen.cohort(kind=gen.data_kind_for(cfg), n_ind=(3, 5), n_visits=(2, 5), features=feats, id_kinds=("s",), shuffle=False))
+    akw = {}
+    if draw(st.booleans()):
+        akw["use_jacobian"] = draw(st.booleans())
+    variants = [dict(prior=draw(prior_ops(min_size=1, max_size=2, allow_same=False)), logging=None, n_jobs=draw(st.sampled_from([2, 3])))]
+    return dict(target="scipy_minimize", cfg=cfg, cohort=cohort, seed=draw(seeds()), pre_seed=draw(st.integers(0, 2**31 - 1)), algo_kw=akw,
+                base_seed=draw(st.integers(0, 99)), base_n_iter=draw(st.integers(5, 9)), variants=variants)
+
+
+def body_njobs(col: Collector, case):
+    """reference = seeded personalize with n_jobs=1; the same seeded call with n_jobs=k, twice in a row after prior activity,
+    must equal the reference (hence each other) bit for bit"""
+    ctx = Ctx(case)
+    try:
+        ctx.build_base()
+    except Exception as e:
+        col.exclude(f"base-fit-raised:{type(e).__name__}")
+        return
+    seed_all(case.get("pre_seed", 0))
+    ref = call_target(ctx, None, tag="ref", extra_kw=dict(n_jobs=1))
+    for variant in case["variants"]:
+        k = variant["n_jobs"]
+        classes = {"perso:n_jobs>1", f"perso:n_jobs={k}", "target:scipy_minimize", "kind:" + case["cfg"]["kind"]}
+        prior = variant.get("prior") or []
+        for op in prior:
+            do_prior(op, ctx, classes)
+        inp = dict(case, variants=[variant])
+        ok = True
+        outs = []
+        for rep in (1, 2):
+            out = call_target(ctx, None, tag="nj", extra_kw=dict(n_jobs=k))
+            outs.append(out)
+            if ref["exc"] is not None:
+                ok = False
+                classes.add("ref-raised")
+                if out["exc"] is None or type(out["exc"]) is not type(ref["exc"]):
+                    col.fail("njobs", "outcome-differs-from-n_jobs=1:" + ("completed" if out["exc"] is None else exc_bucket(out["exc"])), inp,
+                             observed=repr(out["exc"])[:400], expected=f"same outcome as n_jobs=1: {type(ref['exc']).__name__}")
+                continue
+            if out["exc"] is not None:
+                ok = False
+                col.fail("njobs", "unexpected-exception:" + exc_bucket(out["exc"]), inp, observed=repr(out["exc"])[:600],
+                         expected="completes like the n_jobs=1 call")
+                continue
+            d = first_diff(ref["result"], out["result"])
+            if d is not None:
+                ok = False
+                col.fail("njobs", f"result-differs-from-n_jobs=1:repetition{rep}", inp, observed=d,
+                         expected=f"seeded scipy_minimize with n_jobs={k} bit-identical to the same seeded call with n_jobs=1")
+        if len(outs) == 2 and all(o["exc"] is None for o in outs):
+            d = first_diff(outs[0]["result"], outs[1]["result"])
+            if d is not None:
+                ok = False
+                col.fail("njobs", "repetitions-differ:n_jobs>1", inp, observed=d, expected="two repetitions of the same seeded call are bit-identical")
+        if ok:
+            classes.add("nontrivial")
+        col.case(classes=sorted(classes), nontrivial=jhash(["njobs", case_key(case), variant]) if ok else None,
+                 sample=dict(engine="njobs", model=case["cfg"], seed=case["seed"], n_jobs=k, prior=prior, algo=case.get("algo_kw")))
+
+
+def stop_joblib_workers():
+    # joblib keeps its (loky) worker processes alive for minutes: stop them so that the shard's process can exit at once
+    try:
+        from joblib.externals.loky import get_reusable_executor
+
+        get_reusable_executor().shutdown(wait=True, kill_workers=True)
+    except Exception:
+        pass
+
+
+def shard_njobs(seed: int, n_examples: int, tier: str = "quick", shard: int = 0):
+    env.import_leaspy()
+    col = Collector(PROP, f"njobs-{shard}")
+    try:
+        drive(col, njobs_case(tier), body_njobs, n_examples=n_examples, seed=shard_seed(seed, shard, 15), sub_check="njobs")
+    finally:
+        stop_joblib_workers()
+    return col
+
+
 def reuse_cases():
     """exhaustive small grid: fit = kind x population sampler x annealing off/on; personalize = algorithm x kind x annealing off/on"""
     out = []
@@ -1167,6 +1257,8 @@ def shards(tier: str, seed: int):
         fit_kinds = fit_kinds * 6
     for k, kinds in enumerate(fit_kinds):
         specs.append((MOD, "shard_fit", dict(kinds=list(kinds), seed=seed, n_examples=n_fit, tier=tier, shard=k)))
+    for k in range(1 if q else 3):
+        specs.append((MOD, "shard_njobs", dict(seed=seed, n_examples=5 if q else 25, tier=tier, shard=k)))
     for k in range(2 if q else 6):
         specs.append((MOD, "shard_fresh", dict(seed=seed, n_examples=3 if q else 10, tier=tier, shard=k)))
     n_p = 8 if q else 25
@@ -1183,7 +1275,7 @@ def shards(tier: str, seed: int):
     specs.append((MOD, "shard_invalid", dict(part=0, n_parts=1)))
     specs.append((MOD, "shard_known", dict()))
     if not q:  # thorough: the Hypothesis fit shards are the longest
-        specs.sort(key=lambda sp: {"shard_fresh": 0, "shard_fit": 1, "shard_grid": 2}.get(sp[1], 3))
+        specs.sort(key=lambda sp: {"shard_fresh": 0, "shard_njobs": 0, "shard_fit": 1, "shard_grid": 2}.get(sp[1], 3))
     return specs
 
 
@@ -1201,4 +1293,9 @@ def replay(sub_check: str, inp):
             return shard_invalid().failures
     elif sub_check == "fresh":
         body_fresh(col, case)
+    elif sub_check == "njobs":
+        try:
+            body_njobs(col, case)
+        finally:
+            stop_joblib_workers()
     return col.failures
